@@ -177,7 +177,7 @@ func callPacketMethodOwners(c *Check, rule, method string, owners ...string) {
 		if !inScope(fn) || len(fn.Blocks) == 0 {
 			continue
 		}
-		for _, cs := range c.P.CallsIn(fn) {
+		for _, cs := range c.P.CallsInOwn(fn) {
 			if f := c.P.resolveCallee(cs.Ins.Common()); f != target {
 				continue
 			}
